@@ -13,7 +13,14 @@
    every writer follows the program of the code (no in-place writer).
    [sha] is any function (crypto/sha256); key u = hex (sha u).
    Kernel semantics of rename(2)/open inodes/O_EXCL are the meaning of the
-   events: assumed, not proved (partial). *)
+   events: assumed, not proved (partial).
+
+   Further down: the same for exactly the URL read under an injective hash
+   (C14_read_url, C14_isolated), reads in progress and progress of every actor
+   (C14_read_in_progress, C14_writer_can_finish, C14_can_start, C14_set_then_get),
+   and the oracle of the free-running cases against ALL runs of the semantics
+   decorated with API-level events (C14_free_runs_meet_oracle, C14_all_runs_meet_oracle;
+   definitions: C14_Model Part 3).  Clause-by-clause audit: docs/audit/C14.md. *)
 From NV Require Import Base Generated C14_Model C14_Proofs C14_Audit C14_Free.
 Open Scope string_scope.
 
